@@ -402,6 +402,37 @@ def _consume(run, snap, mon):
     return evs
 
 
+def _arms_contradict_table(b, evs):
+    """None, or a message when the arms the bins were dispatched in contradict an unambiguous table."""
+    per = {}
+    for c, s, e in zip(b["chromosome"], b["start"], b["end"]):
+        per.setdefault(c, []).append((s, e))
+    sizes = {}
+    for ev in evs:
+        if ev["bins"]:
+            sizes.setdefault(ev["bins"][0][0], []).append((tuple(ev["bins"][0][1:3]), len(ev["bins"])))
+    for c, rows in per.items():
+        n = len(rows)
+        if any(b2[0] < a2[0] for a2, b2 in zip(rows, rows[1:])):
+            continue                      # not in coordinate order: no opinion
+        holes = [(rows[i][0] - rows[i - 1][1], i) for i in range(1, n)]
+        big = [(g, i) for g, i in holes if g >= 10_000]
+        got = [k for _first, k in sorted(sizes.get(c, []), key=lambda t: rows.index(t[0]) if t[0] in rows else -1)]
+        if not big:
+            want = [n]
+        elif len(big) == 1 and big[0][0] >= 1_000_000:
+            i = big[0][1]
+            margin = max(50, int(round(0.1 * n)))
+            if not (margin + 5 < i < n - margin - 5):      # the outer tenth (at least 50 bins) of a chromosome is never searched for the centromere
+                continue
+            want = [i, n - i]
+        else:
+            continue
+        if got != want:
+            return f"{c}: {n} bins, holes >= 10 kb: {[(g, i) for g, i in big]}; dispatched as arms of {got} bins, the table says {want}"
+    return None
+
+
 def post_call(run, snap, res, args, kwargs):
     mon = "segmentation.do_segmentation"
     arm_mon = "segmentation._do_segmentation[arm]"
@@ -463,6 +494,12 @@ def post_call(run, snap, res, args, kwargs):
         lost = [k for k in allbins if k not in seen]
         dup = [k for k, v in seen.items() if v > 1]
         return run.violate(mon, "bins-not-dispatched-exactly-once", f"{len(lost)} input bins reached no arm, {len(dup)} reached more than one", wit)
+    # the arms themselves, where the table leaves no doubt: a chromosome whose bins are all within 10 kb of each other is one
+    # arm; one with a single hole of >= 1 Mb clearly inside its middle part is two, divided at the hole
+    if method in PER_ARM:
+        bad = _arms_contradict_table(b, evs)
+        if bad:
+            return run.violate(mon, "arms-not-divided-at-the-centromere-gap", bad, wit)
     segs = bins_of(res)
     run._tls.last_seg = segs
     wit["segments"] = {k: v for k, v in segs.items() if k != "n"}
